@@ -20,6 +20,7 @@ def _(self: "J1939_22", send_message: "func", job_thread_wakeup: "func", notify_
 @unit("j1939.j1939_22:J1939_22._buffer_hash", props=["C02", "C10", "C06"])
 def _(self: "J1939_22", session_num: "int", src_address: "int", dest_address: "int"):
     requires(-2**40 <= session_num < 2**40, -2**40 <= src_address < 2**40, -2**40 <= dest_address < 2**40)
+    returns("int")
     ensures("C10.fd.hash", result == hash22(session_num, src_address, dest_address), 0 <= result < 2**20)
     ensures("C10.fd.hash_injective", implies(0 <= session_num < 16 and 0 <= src_address < 256 and 0 <= dest_address < 256,
                                               result // 65536 == session_num and (result // 256) % 256 == src_address
@@ -28,7 +29,8 @@ def _(self: "J1939_22", session_num: "int", src_address: "int", dest_address: "i
 
 @unit("j1939.j1939_22:J1939_22._buffer_hash_mpg", props=["C11"])
 def _(self: "J1939_22", frame_format: "int", msg_counter: "int", src_address: "int", dest_address: "int"):
-    requires(-2**40 <= frame_format < 2**40, -2**40 <= msg_counter < 2**40, -2**40 <= src_address < 2**40, -2**40 <= dest_address < 2**40)
+    requires(-2**40 <= frame_format < 2**40, 0 <= msg_counter, -2**40 <= src_address < 2**40, -2**40 <= dest_address < 2**40)
+    returns("int")
     ensures("C11.sep.hash", result == hash_mpg(frame_format, msg_counter, src_address, dest_address), 0 <= result < 2**32)
     # groups for different destinations, sources or frame formats never share a collection buffer
     ensures("C11.sep.injective", implies(0 <= frame_format < 256 and 0 <= msg_counter < 256 and 0 <= src_address < 256 and 0 <= dest_address < 256,
@@ -52,6 +54,15 @@ def none_free(p, n):
     return forall(lambda i: p[i] != True, 0, n)
 
 
+def first_free4(p):
+    return ite(p[0] == True, 0, ite(p[1] == True, 1, ite(p[2] == True, 2, ite(p[3] == True, 3, 4))))
+
+
+def first_free8(p):
+    return ite(p[0] == True, 0, ite(p[1] == True, 1, ite(p[2] == True, 2, ite(p[3] == True, 3,
+           ite(p[4] == True, 4, ite(p[5] == True, 5, ite(p[6] == True, 6, ite(p[7] == True, 7, 8))))))))
+
+
 @unit("j1939.j1939_22:J1939_22.__get_rts_cts_session", props=["C10", "C02"])
 def _(self: "J1939_22"):
     requires(len(pool_rts(self)) == 8)
@@ -64,6 +75,8 @@ def _(self: "J1939_22"):
                                    and pool_rts(self)[result] == False
                                    and forall(lambda i: implies(i != result, pool_rts(self)[i] == old(pool_rts(self)[i])), 0, 8)))
     ensures("C10.fd.take.rts.len", len(pool_rts(self)) == 8)
+    # the lowest free number is handed out
+    ensures("C10.fd.take.rts.lowest", ite(is_none(result), old(first_free8(pool_rts(self))) == 8, result == old(first_free8(pool_rts(self)))))
 
 
 @unit("j1939.j1939_22:J1939_22.__get_bam_session", props=["C10", "C02"])
@@ -77,6 +90,7 @@ def _(self: "J1939_22"):
                                    and pool_bam(self)[result] == False
                                    and forall(lambda i: implies(i != result, pool_bam(self)[i] == old(pool_bam(self)[i])), 0, 4)))
     ensures("C10.fd.take.bam.len", len(pool_bam(self)) == 4)
+    ensures("C10.fd.take.bam.lowest", ite(is_none(result), old(first_free4(pool_bam(self))) == 4, result == old(first_free4(pool_bam(self)))))
 
 
 @unit("j1939.j1939_22:J1939_22.__put_rts_cts_session", props=["C10"])
